@@ -5,6 +5,7 @@ package main
 import (
 	"fmt"
 	"go/token"
+	"os"
 	"strings"
 
 	"golang.org/x/tools/go/ssa"
@@ -164,26 +165,12 @@ func checkC11(c *Ctx) {
 			case "ready", "ante":
 				c.Check(fromPlayers && len(conds) == 0, "R4", key+":asks-everyone", p.InstrPos(a.Top), "every player of the hand, unconditionally", fmt.Sprintf("the %s handler does not ask every player of the hand (from gs.Players=%v, extra conditions=%d)", r, fromPlayers, len(conds)))
 			case "blinds":
-				// exactly: Blind.X > 0 ∧ HasPosition(p.Idx, X) with the same X, plus negations of earlier alternatives
-				var amt, pos string
-				for _, g := range conds {
-					if !g.Val {
-						continue
-					}
-					if cm := g.AsCmp(); cm != nil && cm.Op == token.GTR && cm.R.Strip().Name == "0" && cm.L.Strip().Kind == "field" && cm.L.Strip().Owner == "BlindSetting" {
-						amt = cm.L.Strip().Name
-					}
-					cs := g.Cond.Strip()
-					if cs.IsCall("pokerface.GameState.HasPosition") && len(cs.Args) == 3 && cs.Args[1].Strip().String() == idx.String() {
-						pos, _ = cs.Args[2].ConstString()
-					}
-				}
-				match := map[string]string{"BB": "bb", "SB": "sb", "Dealer": "dealer"}
-				c.Check(fromPlayers && amt != "" && match[amt] == pos, "R4", key+":asks-position:"+amt, p.InstrPos(a.Top), "asked iff Blind."+amt+" > 0 ∧ holds "+pos, fmt.Sprintf("the blinds handler asks a player under blind amount %q and position %q: they must match (BB↔bb, SB↔sb, Dealer↔dealer)", amt, pos))
+				// who is asked is decided over the whole loop body (checkBlindsAskTable); here: the participant is a player of the hand
+				c.Check(fromPlayers, "R4", key+":asks-a-hand-player", p.InstrPos(a.Top), "participant is p.Idx of a player ranged from gs.Players", "the blinds handler adds "+idx.String()+" — not the index of a player ranged from the hand's player list")
 			}
 		}
 		if r == "blinds" {
-			c.Check(len(by["Add"]) == 3, "R4", key+":three-positions", p.Pos(f.Pos()), "BB, SB and dealer blinds handled", fmt.Sprintf("the blinds handler asks for %d kinds of blind, three expected", len(by["Add"])))
+			checkBlindsAskTable(c, p, f, by["Add"], key)
 		}
 		// R3 completion calls exactly its group step
 		cl := completionOf[f]
@@ -535,4 +522,97 @@ func posOf(p *Prog, f *ssa.Function) string {
 		return "-"
 	}
 	return p.Pos(f.Pos())
+}
+
+// checkBlindsAskTable: in the loop over the hand's players, a player is added to the ready group
+// exactly when (Blind.BB > 0 ∧ holds bb) ∨ (Blind.SB > 0 ∧ holds sb) ∨ (Blind.Dealer > 0 ∧ holds dealer),
+// decided as a truth table over every path through the loop body — whatever the shape of the
+// conditions (an if/else-if chain with three Add sites, one Add under a disjunction, a flag …).
+func checkBlindsAskTable(c *Ctx, p *Prog, f *ssa.Function, adds []rgOp, key string) {
+	where := p.Pos(f.Pos())
+	var header *ssa.BasicBlock
+	for _, h := range loopHeaders(f) {
+		loop := naturalLoop(h)
+		all := len(adds) > 0
+		for _, a := range adds {
+			if !loop[a.Top.Block()] {
+				all = false
+			}
+		}
+		if all && (header == nil || naturalLoop(header)[h]) {
+			header = h
+		}
+	}
+	if header == nil {
+		c.Bad("R4", key+":asks-position", where, "the blinds handler does not add its participants inside one loop over the players")
+		return
+	}
+	paths, ok := p.loopBodyPaths(header)
+	if !ok {
+		c.Undecided("R4", key+":asks-position", where, "loop body too complex to enumerate")
+		return
+	}
+	var body []bodyPath
+	for _, bp := range paths {
+		if bp.Exit && len(bp.Order) == 1 {
+			continue // the loop is over: no player on this path
+		}
+		body = append(body, bp)
+	}
+	paths = body
+	idx := adds[0].Args[1].Strip()
+	for _, a := range adds {
+		if a.Args[1].Strip().String() != idx.String() {
+			c.Bad("R4", key+":asks-position", p.InstrPos(a.Top), "the blinds handler adds different participants at different sites of the loop body: "+idx.String()+" and "+a.Args[1].Strip().String())
+			return
+		}
+	}
+	names := []string{"BB>0", "SB>0", "Dealer>0", "holds-bb", "holds-sb", "holds-dealer"}
+	atom := func(g Guard) (string, bool, bool) {
+		cs := g.Cond.Strip()
+		if cs.Kind == "binop" && cs.Args[0].Strip().Kind == "ind" {
+			return "", false, true // loop test
+		}
+		if cm := g.AsCmp(); cm != nil && cm.L.Strip().Kind == "field" && cm.L.Strip().Owner == "BlindSetting" && cm.R.Strip().Name == "0" {
+			nm := cm.L.Strip().Name + ">0"
+			switch cm.Op {
+			case token.GTR: // AsCmp is the comparison that holds on this edge
+				return nm, true, true
+			case token.LEQ:
+				return nm, false, true
+			}
+			return "", false, false
+		}
+		if cs.IsCall("pokerface.GameState.HasPosition") && len(cs.Args) == 3 && cs.Args[1].Strip().String() == idx.String() {
+			if pos, isC := cs.Args[2].ConstString(); isC {
+				return "holds-" + pos, g.Val, true
+			}
+		}
+		return "", false, false
+	}
+	addBlocks := map[*ssa.BasicBlock]bool{}
+	for _, a := range adds {
+		addBlocks[a.Top.Block()] = true
+	}
+	if os.Getenv("TABLELINT_DEBUG_C11") != "" {
+		for _, bp := range paths {
+			fmt.Fprintf(os.Stderr, "path exit=%v order=%v guards=%v\n", bp.Exit, bp.Order, bp.Guards)
+		}
+		fmt.Fprintf(os.Stderr, "adds=%v idx=%s\n", addBlocks, idx)
+	}
+	msg := tableCheck(paths, atom, names, nil,
+		map[string]func(bodyPath) bool{"ask the player for a blind": func(bp bodyPath) bool {
+			for b := range addBlocks {
+				if bp.Blocks[b] {
+					return true
+				}
+			}
+			return false
+		}},
+		map[string]func(map[string]bool) bool{"ask the player for a blind": func(a map[string]bool) bool {
+			return a["BB>0"] && a["holds-bb"] || a["SB>0"] && a["holds-sb"] || a["Dealer>0"] && a["holds-dealer"]
+		}})
+	for _, amt := range []string{"BB", "SB", "Dealer"} {
+		c.Check(msg == "", "R4", key+":asks-position:"+amt, where, "asked iff some Blind.X > 0 ∧ the player holds position X (truth table over the loop body)", "blinds handler: "+msg+" — a player is asked exactly when a blind amount is configured for a position they hold (BB↔bb, SB↔sb, Dealer↔dealer)")
+	}
 }
